@@ -1018,3 +1018,153 @@ Proof.
   - apply mgr_init_inv.
   - constructor; simpl; [intros s id _ []|constructor].
 Qed.
+(* ---------- the difference recursion terminates within its fuel ---------- *)
+Lemma filter_len_le : forall A (f g : A -> bool) l,
+  (forall x, g x = true -> f x = true) -> (length (filter g l) <= length (filter f l))%nat.
+Proof.
+  induction l as [|a t IH]; intros H; simpl; auto.
+  destruct (g a) eqn:G.
+  - rewrite (H a G). simpl. apply le_n_S. apply IH; auto.
+  - destruct (f a); simpl; [apply le_S|]; apply IH; auto.
+Qed.
+Lemma filter_len_lt : forall A (f g : A -> bool) l x,
+  (forall x, g x = true -> f x = true) -> In x l -> f x = true -> g x = false ->
+  (length (filter g l) < length (filter f l))%nat.
+Proof.
+  induction l as [|a t IH]; intros x H Hin Hf Hg; [destruct Hin|]. simpl.
+  destruct Hin as [->|Hin].
+  - rewrite Hf, Hg. simpl. apply le_n_S. apply filter_len_le; auto.
+  - destruct (g a) eqn:G.
+    + rewrite (H a G). simpl. assert (length (filter g t) < length (filter f t))%nat by (eapply IH; eauto). lia.
+    + assert (length (filter g t) < length (filter f t))%nat by (eapply IH; eauto). destruct (f a); simpl; lia.
+Qed.
+Lemma pend_length : forall log s a b,
+  length (pend log s a b) = length (filter (fun e => (eseq e =? s) && (a <? epos e) && (epos e <=? b)) log).
+Proof. intros. unfold pend. apply Permutation_length, isort_perm. Qed.
+
+Lemma pend_shrinks : forall log s a b lim cut,
+  slice_cut lim (pend log s a b) b = (cut, true) ->
+  (length (pend log s cut b) < length (pend log s a b))%nat.
+Proof.
+  intros log s a b lim cut H. unfold slice_cut in H.
+  destruct ((0 <? lim) && (lim <? Z.of_nat (length (pend log s a b)))) eqn:Eb; inversion H; subst; clear H.
+  apply andb_prop in Eb. destruct Eb as [Eb1 Eb2]. apply Z.ltb_lt in Eb1, Eb2.
+  set (x := nth (Z.to_nat (lim - 1)) (pend log s a b) dflt_entry).
+  assert (Hx : In x (pend log s a b)) by (apply nth_In; lia).
+  rewrite pend_in in Hx. destruct Hx as (X1 & X2 & X3).
+  rewrite !pend_length. apply (filter_len_lt _ _ _ log x); auto.
+  - intros y Hy. rewrite !andb_true_iff in *. rewrite Z.eqb_eq, Z.ltb_lt, Z.leb_le in *. lia.
+  - rewrite !andb_true_iff, Z.eqb_eq, Z.ltb_lt, Z.leb_le. lia.
+  - rewrite !andb_false_iff, Z.ltb_ge. left. right. lia.
+Qed.
+
+Lemma bstate_clear_gaps : forall m s s1, bstate (mbox (clear_gaps m s) s1) = bstate (mbox m s1).
+Proof. intros. unfold clear_gaps, set_box. simpl. destruct (s1 =? s) eqn:E; [apply Z.eqb_eq in E; subst|]; reflexivity. Qed.
+
+(* once the pts position equals the horizon one more fetch finishes *)
+Lemma get_diff_fuel_at_horizon : forall f c log vis m,
+  moof m = false -> bstate (mbox m 0) = vis 0 -> moof (get_diff (S f) c log vis m) = false.
+Proof.
+  intros f c log vis m Hm Hs. cbn [get_diff]. cbv zeta.
+  rewrite !bstate_clear_gaps, Hs, pend_same_nil. simpl app.
+  destruct (pend log 1 _ (vis 1)); [exact Hm|].
+  replace ((0 <? tl_thr c) && (vis 0 - vis 0 >? tl_thr c)) with false.
+  - unfold slice_cut. simpl length. replace ((0 <? slice_lim c) && (slice_lim c <? Z.of_nat 0)) with false; [exact Hm|].
+    symmetry. apply andb_false_iff. destruct (Z.ltb_spec 0 (slice_lim c)); [right; apply Z.ltb_ge; simpl; lia|left; reflexivity].
+  - symmetry. apply andb_false_iff. destruct (Z.ltb_spec 0 (tl_thr c)); [right|left; reflexivity].
+    rewrite Z.sub_diag. rewrite Z.gtb_ltb. apply Z.ltb_ge. lia.
+Qed.
+
+Lemma get_diff_fuel : forall fuel c log vis m,
+  moof m = false -> (length (pend log 0%Z (bstate (mbox m 0%Z)) (vis 0%Z)) + 2 <= fuel)%nat ->
+  moof (get_diff fuel c log vis m) = false.
+Proof.
+  induction fuel as [|f IH]; intros c log vis m Hm Hf; [lia|].
+  cbn [get_diff]. cbv zeta.
+  set (m1 := clear_gaps (clear_gaps m 0) 1).
+  assert (E0 : bstate (mbox m1 0) = bstate (mbox m 0)) by (unfold m1; rewrite !bstate_clear_gaps; reflexivity).
+  rewrite E0.
+  destruct (_ ++ _); [exact Hm|].
+  destruct (_ && _).
+  - destruct f as [|f']; [lia|]. apply get_diff_fuel_at_horizon; [exact Hm|].
+    rewrite bstate_set_state. reflexivity.
+  - destruct (slice_cut (slice_lim c) (pend log 0 (bstate (mbox m 0)) (vis 0)) (vis 0)) as [cut sliced] eqn:Ec.
+    destruct sliced; [|exact Hm].
+    apply IH; [exact Hm|].
+    rewrite bstate_set_state. change (0 =? 1) with false. cbv iota. rewrite bstate_set_state. rewrite Z.eqb_refl.
+    apply pend_shrinks in Ec. lia.
+Qed.
+
+Lemma chan_diff_fuel : forall fuel c log vis s m,
+  moof m = false -> (length (pend log s (bstate (mbox m s)) (vis s)) + 1 <= fuel)%nat ->
+  moof (chan_diff fuel c log vis s m) = false.
+Proof.
+  induction fuel as [|f IH]; intros c log vis s m Hm Hf; [lia|].
+  cbn [chan_diff]. cbv zeta.
+  rewrite !bstate_clear_gaps.
+  destruct (pend log s (bstate (mbox m s)) (vis s)) as [|e0 l0] eqn:Ep; [exact Hm|].
+  rewrite <- Ep in Hf |- *.
+  destruct (_ && _); [exact Hm|].
+  destruct (slice_cut (cslice_lim c) (pend log s (bstate (mbox m s)) (vis s)) (vis s)) as [cut sliced] eqn:Ec.
+  destruct sliced; [|exact Hm].
+  apply IH; [exact Hm|].
+  rewrite bstate_set_state, Z.eqb_refl. apply pend_shrinks in Ec. lia.
+Qed.
+
+Lemma pend_le_log : forall log s a b, (length (pend log s a b) <= length log)%nat.
+Proof.
+  intros. rewrite pend_length. generalize (fun e : entry => (eseq e =? s) && (a <? epos e) && (epos e <=? b)).
+  intros f. induction log as [|x t IH]; simpl; auto. destruct (f x); simpl; lia.
+Qed.
+
+Lemma push_moof : forall c log m ids, moof (push c log m ids) = moof m.
+Proof.
+  intros. unfold push. simpl.
+  generalize (isort route_key (flat_map (find_entry log) ids)). intros items. revert m.
+  induction items as [|e t IH]; intros m; simpl; auto. rewrite IH. unfold push_item.
+  destruct (_ && _); auto. destruct (handle _ _); reflexivity.
+Qed.
+
+Lemma mstep_moof : forall c log m o, moof m = false -> moof (mstep c log m o) = false.
+Proof.
+  intros c log m o Hm. destruct o; cbn [mstep].
+  - rewrite push_moof; auto.
+  - apply get_diff_fuel; auto. unfold fuel_of. pose proof (pend_le_log log 0 (bstate (mbox m 0)) (vis 0)). lia.
+  - destruct (_ && _); auto. apply chan_diff_fuel; auto. unfold fuel_of. pose proof (pend_le_log log s (bstate (mbox m s)) (vis s)). lia.
+  - apply get_diff_fuel; auto. unfold fuel_of. pose proof (pend_le_log log 0 (bstate (mbox m 0)) (vis 0)). lia.
+  - destruct (_ && _); auto. apply chan_diff_fuel; auto. unfold fuel_of. pose proof (pend_le_log log s (bstate (mbox m s)) (vis s)). lia.
+  - assert (H : moof (get_diff (fuel_of log) c log vis m) = false).
+    { apply get_diff_fuel; auto. unfold fuel_of. pose proof (pend_le_log log 0 (bstate (mbox m 0)) (vis 0)). lia. }
+    revert H. generalize (get_diff (fuel_of log) c log vis m). induction (chan_seqs c) as [|s t IHl]; intros m0 H0; cbn [fold_left]; auto.
+    apply IHl. apply chan_diff_fuel; auto. unfold fuel_of. pose proof (pend_le_log log s (bstate (mbox m0 s)) (vis s)). lia.
+Qed.
+
+Theorem never_out_of_fuel : forall c log ops, moof (mrun c log ops) = false.
+Proof.
+  intros c log ops. unfold mrun. generalize (eq_refl : moof (mgr_init c) = false). generalize (mgr_init c).
+  induction ops as [|o t IH]; intros m Hm; simpl; auto. apply IH. apply mstep_moof; auto.
+Qed.
+
+(* unconditional forms *)
+Theorem no_loss_common_total : forall c log ops vis,
+  wf_log log ->
+  forall s e, (s = 0 \/ s = 1) -> In e log -> eseq e = s -> base c s < epos e <= vis s ->
+              accounted s e (mtr (mrun c log (ops ++ [MTooLong vis]))).
+Proof. intros. eapply no_loss_common; eauto. apply never_out_of_fuel. Qed.
+Theorem no_loss_channel_total : forall c log ops vis s,
+  wf_log log -> 2 <= s < nseq c ->
+  forall e, In e log -> eseq e = s -> base c s < epos e <= vis s ->
+            accounted s e (mtr (mrun c log (ops ++ [MChanTooLong vis s]))).
+Proof. intros. eapply no_loss_channel; eauto. apply never_out_of_fuel. Qed.
+Theorem restart_common_total : forall c log ops pre post ops2 vis,
+  wf_log log -> mtr (mrun c log ops) = pre ++ post ->
+  forall s e, (s = 0 \/ s = 1) -> In e log -> eseq e = s -> base c s < epos e <= vis s ->
+              accounted s e pre \/
+              accounted s e (mtr (mrun (rebase c (fun s => persisted c s pre)) log (ops2 ++ [MTooLong vis]))).
+Proof. intros. eapply restart_common; eauto. apply never_out_of_fuel. Qed.
+Theorem restart_channel_total : forall c log ops pre post ops2 vis s,
+  wf_log log -> 2 <= s < nseq c -> mtr (mrun c log ops) = pre ++ post ->
+  forall e, In e log -> eseq e = s -> base c s < epos e <= vis s ->
+            accounted s e pre \/
+            accounted s e (mtr (mrun (rebase c (fun s => persisted c s pre)) log (ops2 ++ [MChanTooLong vis s]))).
+Proof. intros. eapply restart_channel; eauto. apply never_out_of_fuel. Qed.
